@@ -13,7 +13,6 @@ structure ElemFactsN (m : XmlMeta) (var : XmlVar) : Prop where
   init : var.init = true
   mixed : var.mixed = false
   anyType : var.anyType = false
-  sequence : var.sequence = none
   union : var.isClazzUnion = false
   qne : var.qname ≠ []
   index : 1 ≤ var.index
